@@ -133,7 +133,12 @@ pub fn run(ctx: &Ctx) -> Outcome {
                 }
                 continue;
             }
-            let s = workload_text(&mut rng, lex, if i % 500 == 1 { 400 } else if i % 50 == 0 { 60 } else { 12 });
+            let mut s = workload_text(&mut rng, lex, if i % 500 == 1 { 400 } else if i % 50 == 0 { 60 } else { 12 });
+            if i % 1024 == 7 {
+                let words = 1500 + rng.usize(2500);
+                s = format!("{}{}", gen::long_filler_prefix(&mut rng, lex, words), s);
+                rep.count("long_documents");
+            }
             crate::core::set_current(code, "replace_numbers_in_text", &s);
             let mut max_occ = 0;
             for &t in TEXT_THRESHOLDS.iter() {
